@@ -8,7 +8,23 @@ Local Open Scope Z_scope.
 Definition zneg (F : nat -> nat -> Z) : nat -> nat -> Z := mneg Z Z.opp F.
 Definition zid_list (n : nat) : list (list Z) := zto_list n n (mid Z 0 1).
 
-Inductive linkind := InvVjp | InvJvp | SolveVjpA | SolveVjpB | SolveJvpA | SolveJvpB | SolveValue.
+Inductive linkind := InvVjp | InvJvp | SolveVjpA | SolveVjpB | SolveJvpA | SolveJvpB | SolveValue | DetValue | DetVjp.
+
+(* the determinant by Laplace expansion along the first row (sizes up to 4 in the correspondence) *)
+Fixpoint drop_col (j : nat) (row : list Z) : list Z :=
+  match row, j with [], _ => [] | _ :: r, O => r | x :: r, S j' => x :: drop_col j' r end.
+Fixpoint zdet_fuel (fuel : nat) (M : list (list Z)) : Z :=
+  match fuel with
+  | O => 1
+  | S f =>
+    match M with
+    | [] => 1
+    | row :: rest =>
+      fold_left Z.add
+        (map (fun j => (if Nat.even j then 1 else -1) * nth j row 0 * zdet_fuel f (map (drop_col j) rest)) (seq 0 (length row))) 0
+    end
+  end.
+Definition zdet (M : list (list Z)) : Z := zdet_fuel (S (length M)) M.
 Record caselin := {
   l_n : nat; l_p : nat;
   l_A : list (list Z); l_B : list (list Z);          (* B is claimed to be the inverse of A *)
@@ -30,6 +46,8 @@ Definition model_lin (c : caselin) : list (list Z) :=
   | SolveJvpA => zto_list n p (zneg (zmm n B (zmm n T X)))                       (* -B (dA x) *)
   | SolveJvpB => zto_list n p (zmm n B T)                                        (* B db *)
   | SolveValue => zto_list n p X
+  | DetValue => [[zdet c.(l_A)]]
+  | DetVjp => zto_list n n (fun i j => nth 0 (nth 0 c.(l_T) []) 0 * zdet c.(l_A) * tr Z B i j)        (* g * det(x) * inv(x)^T *)
   end.
 
 (* 0: model = implementation; 1: the claimed inverse is not one, or model and implementation differ (tie broken);
